@@ -125,11 +125,20 @@ def record(rep: common.Report, t: pydsdl.CompositeType, on: str, what: str, log:
         rep.unknown(key, u)
     for c in log.cex:
         c = dict(c)
-        ok, how = (False, "no unit") if tu is None else (replayer(tu, c, on) if replayer is not None else codec.replay(tu, c))
+        if replayer is not None:
+            ok, how = replayer(tu, c, on)
+        else:
+            ok, how = (False, "no unit") if tu is None else codec.replay(tu, c)
         rd = common.replay_dir(rep.prop, dict(key=key, c=c))
         (rd / "counterexample.json").write_text(__import__("json").dumps(dict(type=t.full_name, options=on, run=what, **c, replay=how), indent=1, default=str))
         inp = c.get("inputs") or {}
         n = c.get("bufsize", c.get("L", 0))
+        if on == "py":
+            from checks import py_common
+            py_common.write_replay(rd, rep.tier, t, c)
+            rep.counterexample(f"py:{t.short_name}:{c['fn']}:{c['kind']}", f"[py] {t.full_name} {c['fn']} ({what}): {c['what']} "
+                               f"{ {k: c[k] for k in ('shape', 'values', 'buf', 'L') if k in c} } :: {how[:240]}", str(rd), ok)
+            continue
         (rd / "replay.sh").write_text("#!/bin/bash\n# regenerates the header from /repo's current nunavut and runs the counterexample natively (ASan+UBSan)\n"
                                       f"cd /verif && PYTHONPATH=/verif .venv/bin/python -m checks.codec_common --replay {rep.tier} '{on}' {t.full_name} {c['fn']} {n} "
                                       f"{(inp.get('obj') if c['fn'] == 'ser' else inp.get('dst')) or '-'} {inp.get('buf') or '-'}\n")
